@@ -102,14 +102,20 @@ pub(crate) fn parse_exp_leaf(exp: Pair<Rule>) -> Result<PreExp, CompilationError
                 .into_inner()
                 .map(parse_exp_leaf)
                 .collect::<Result<Vec<_>, _>>()?;
-            if exps.len() < 2 {
-                return err_unexpected_token!(
-                    "implicit multiplication must have at least 2 operands, got {}",
-                    exp
-                );
-            }
             let mut iter = exps.into_iter();
-            let first = iter.next().unwrap();
+            let first = match iter.next() {
+                Some(first) => first,
+                None => {
+                    return err_unexpected_token!(
+                        "implicit multiplication must have at least 1 operand, got {}",
+                        exp
+                    );
+                }
+            };
+            //a lone number or parenthesis is just that expression
+            if iter.len() == 0 {
+                return Ok(first);
+            }
             let mut res = PreExp::BinaryOperation(
                 Spanned::new(BinOp::Mul, span.clone()),
                 first.to_boxed(),
